@@ -44,6 +44,9 @@ def run(ctx):
             if path:
                 lits = lits_for(prog, path, bits, depth=3)
                 cells = cuts_to_cells(bits, lits, signed_boundary=True)
+                import probes
+                have = {c[0] for c in cells if c[0] == c[1]}
+                cells += [c for c in probes.singles([v & mask(bits) for v in probes.int_probes(pty, bits, signed)]) if c[0] not in have]
 
                 def mk(cell, bits=bits, signed=signed):
                     lo, hi = cell[0]
@@ -59,6 +62,9 @@ def run(ctx):
                 if path:
                     lits = lits_for(prog, path, pty.bits, depth=3)
                     cells = cuts_to_cells(pty.bits, list(lits) + special_cuts(pty))
+                    import probes
+                    have = {c[0] for c in cells if c[0] == c[1]}
+                    cells += [c for c in probes.singles(probes.posit_probes(pty, 2)) if c[0] not in have]
                     st = run_cells(ctx, prog, 'GCR', '%s::to_%s' % (pty.name, iname), path,
                                    lambda cell, pty=pty: [posit_arg(pty, cell[0][0], cell[0][1], 0)], [cells],
                                    to_int_spec(pty, bits, signed), bits, exhaustive_limit=256 if pty.bits == 8 else 0)
